@@ -39,7 +39,7 @@ PROPS = {
     },
     "C17": {
         "streams": _cancel_streams,
-        "rule": "(ctxsplit) client Send and the receive function it returns given DIFFERENT contexts against a scripted silent / late peer on unix and tcp: receive cancelled or timed out while blocked, Send's context cancelled after the write, reuse of the connection after a cancelled receive (both frames must arrive in order), Call with one context; (cancel) real transports (unix, tcp, net.Pipe, bridge subprocess, the service's per-connection read) x {ctxio ReadBytes / Read / Write, client Call / Send} x {cancel, deadline} with a silent peer and a 2 s one-sided margin, goroutine count and reuse of the connection under a context without a deadline; plus generated cases over a tracing net.Conn: {frame read, raw read, write} x {cancel, deadline} x instant {before the call, blocked with nothing in flight, frame partially received, after completion} x connection honours deadlines or not x bufio state left by a preceding operation x follow-up operations with a live context; non-trivial = the context ends while the operation is blocked",
+        "rule": "(history) short fixed histories whose state must not outlive an operation: a Send given up on an unbuffered pipe followed by calls (the peer sees only the later calls), a connection closed with received but unread replies followed by a new connection that calls and upgrades, an interface registered between two serving runs on one Service under the same context (a call answered InterfaceNotFound before reaches it afterwards), a plain call after a `more` call answered to its end (the handler sees the flags of the call it handles); (ctxsplit) client Send and the receive function it returns given DIFFERENT contexts against a scripted silent / late peer on unix and tcp: receive cancelled or timed out while blocked, Send's context cancelled after the write, reuse of the connection after a cancelled receive (both frames must arrive in order), Call with one context; (cancel) real transports (unix, tcp, net.Pipe, bridge subprocess, the service's per-connection read) x {ctxio ReadBytes / Read / Write, client Call / Send} x {cancel, deadline} with a silent peer and a 2 s one-sided margin, goroutine count and reuse of the connection under a context without a deadline; plus generated cases over a tracing net.Conn: {frame read, raw read, write} x {cancel, deadline} x instant {before the call, blocked with nothing in flight, frame partially received, after completion} x connection honours deadlines or not x bufio state left by a preceding operation x follow-up operations with a live context; non-trivial = the context ends while the operation is blocked",
         "trusted_base": [
             "bufio.Reader is modelled (lean/Varlink/Frame.lean), validated against the real package by every run",
             "the go/ast extractor extract/access.go (skeleton of Read / ReadBytes / Write: deadline calls, spawn, select arms)",
